@@ -349,7 +349,8 @@ func marketOp() c18op {
 			maxFee := sdk.NewInt64Coin(den, 1_000_000) // well above floor(buyer fee) for every accepted rate in the alphabet
 			buy := scen.Msg(fmt.Sprintf("BuyDirect(D,0.5@1000%s)", strings.SplitN(den, "/", 2)[0]), &markettypes.MsgBuyDirect{Buyer: scen.D.String(), Orders: []*markettypes.MsgBuyDirect_Order{
 				{SellOrderId: r.SellOrderIds[0], Quantity: "0.5", BidPrice: &bid, DisableAutoRetire: true, MaxFeeAmount: &maxFee}}})
-			_, bw, bres, _ := explore.Apply(c, branch, buy)
+			preBuy := c.Snap(branch)
+			postBuy, bw, bres, _ := explore.Apply(c, branch, buy)
 			if !bres.OK {
 				k := "op-fails/BuyDirect"
 				if bres.Panic {
@@ -359,6 +360,34 @@ func marketOp() c18op {
 				continue
 			}
 			bw()
+			// the accepted rates are in force: the fee collected on this purchase (subtotal 500) is the
+			// truncation of 500 x buyer rate + 500 x seller rate, the seller receives the truncation of the rest
+			{
+				rate := func(r string) *big.Rat {
+					if p, err := ref.Parse(r); r != "" && err == nil {
+						return p.R
+					}
+					return new(big.Rat)
+				}
+				rbq, rsq := rate(c18Rates[cfg.rb]), rate(c18Rates[cfg.rs])
+				sub := big.NewRat(500, 1)
+				fl := func(x *big.Rat) *big.Int { return new(big.Int).Quo(x.Num(), x.Denom()) }
+				wantFee := fl(new(big.Rat).Add(new(big.Rat).Mul(sub, rbq), new(big.Rat).Mul(sub, rsq)))
+				wantSeller := fl(new(big.Rat).Mul(sub, new(big.Rat).Sub(big.NewRat(1, 1), rsq)))
+				ps := c.Snap(postBuy)
+				var gotFee *big.Int
+				if den == "uregen" {
+					gotFee = new(big.Int).Sub(preBuy.TotalSupply(den), ps.TotalSupply(den))
+				} else {
+					gotFee = coinDelta(preBuy, ps, scen.FeePool.String(), den)
+				}
+				if gotFee.Cmp(wantFee) != 0 {
+					probs = append(probs, [2]string{"fee-rates-not-in-force/fee-collected", fmt.Sprintf("%s with %s: fee collected %s, the accepted rates give %s", buy.Label, cfg, gotFee, wantFee)})
+				}
+				if got := coinDelta(preBuy, ps, scen.B.String(), den); got.Cmp(wantSeller) != 0 {
+					probs = append(probs, [2]string{"fee-rates-not-in-force/seller-payment", fmt.Sprintf("%s with %s: seller received %s, the accepted rates give %s", buy.Label, cfg, got, wantSeller)})
+				}
+			}
 			// a buyer who caps the fee at an explicit ZERO coin: the cap covers the buyer fee whenever that fee,
 			// rounded down to whole units, is zero (0.25 x 1000 x buyer rate < 1)
 			rate := new(big.Rat)
